@@ -592,6 +592,9 @@ class Union(Structure, metaclass=UnionMetaType):
             for field in value.__class__.__fields__:
                 if issubclass(field.type, Structure):
                     nested_value = getattr(value, field._name)
+                    if isinstance(nested_value, UnionProxy):
+                        # Already proxied by another union (e.g. a shared default value), proxy the actual structure
+                        nested_value = nested_value.__target__
                     proxy = UnionProxy(self, field._name, nested_value)
                     object.__setattr__(value, field._name, proxy)
                     _proxy_structure(nested_value)
